@@ -98,6 +98,8 @@ impl Kind {
 enum Api {
     Json,
     Message,
+    /// `call_json` with `params = None` (the retry loops send an empty-body request through `call_message_with_timeout`)
+    JsonNoParams,
 }
 
 impl Api {
@@ -105,12 +107,14 @@ impl Api {
         match self {
             Api::Json => "call_json",
             Api::Message => "call_message",
+            Api::JsonNoParams => "call_json(None)",
         }
     }
     fn parse(s: &str) -> Option<Api> {
         match s {
             "call_json" => Some(Api::Json),
             "call_message" => Some(Api::Message),
+            "call_json(None)" => Some(Api::JsonNoParams),
             _ => None,
         }
     }
@@ -278,6 +282,10 @@ impl Driver {
                                 Ok(r) => norm_value(r),
                                 Err(e) => Res::FleetErr(e.to_string()),
                             },
+                            Api::JsonNoParams => match f.call_json(&name, &path, None) {
+                                Ok(r) => norm_value(r),
+                                Err(e) => Res::FleetErr(e.to_string()),
+                            },
                             Api::Message => match f.call_message(&name, &path) {
                                 Ok(r) => norm_message(r),
                                 Err(e) => Res::FleetErr(e.to_string()),
@@ -297,6 +305,10 @@ impl Driver {
                         let fut = async {
                             match api {
                                 Api::Json => match fleet.call_json(node_name, path, Some(&params)).await {
+                                    Ok(r) => norm_value(r),
+                                    Err(e) => Res::FleetErr(e.to_string()),
+                                },
+                                Api::JsonNoParams => match fleet.call_json(node_name, path, None).await {
                                     Ok(r) => norm_value(r),
                                     Err(e) => Res::FleetErr(e.to_string()),
                                 },
@@ -1165,10 +1177,10 @@ impl Plan {
                     continue;
                 }
                 for kind in [Kind::Blocking, Kind::Async] {
-                    for api in [Api::Json, Api::Message] {
-                        // quick runs call_message (a second copy of the same loop)
-                        // only on the short scripts; thorough on everything
-                        if api == Api::Message && len > tier.pick(2, usize::MAX) {
+                    for api in [Api::Json, Api::Message, Api::JsonNoParams] {
+                        // quick runs call_message and call_json(None) (further branches of the same
+                        // loop) only on the short scripts; thorough on everything
+                        if api != Api::Json && len > tier.pick(2, usize::MAX) {
                             continue;
                         }
                         blocks.push(Block::Single { kind, api, max, len, garbage: Garbage::BadSpec });
